@@ -354,7 +354,7 @@ def build(s, key):
         cls = B.Concatenate if op == "Concatenate" else B.Stack
         return cls([build(a, kk) for a, kk in zip(s["args"], ks)], axis=s["axis"])
     if op == "Partial":
-        return B.Partial(build(s["child"], k[0]), decode_index(s["idxs"]), sh)
+        return B.Partial(build(s["child"], k[0]), decode_index(s["idxs"], np_only=bool(s.get("np_idxs"))), sh)  # np_idxs: NumPy index arrays
     if op == "Invert":
         return B.Invert(build(s["child"], k[0]))
     if op == "Reshape":
@@ -491,6 +491,11 @@ def combinator_catalogue():
                      ({"tuple": [{"slice": [None, None, None]}, {"ints": [4, 0, 2]}]}, (3, 3)),
                      ({"bools": [True, False, True]}, (2, 5))]:
         C.append({"op": "Partial", "idxs": enc, "shape": full, "child": {"op": "Affine", "shape": sub}})
+    # the same index kinds handed over as NumPy arrays (boolean mask alone and inside a tuple, integer array)
+    for enc, sub in [({"bools": [True, False, True]}, (2, 5)), ({"ints": [2, 0]}, (2, 5)),
+                     ({"tuple": [{"bools": [False, True, True]}, {"slice": [None, None, None]}]}, (2, 5)),
+                     ({"tuple": [{"slice": [None, None, None]}, {"bools": [True, False, False, True, True]}]}, (3, 3))]:
+        C.append({"op": "Partial", "idxs": enc, "np_idxs": True, "shape": full, "child": {"op": "Affine", "shape": sub}})
     C.append({"op": "Partial", "idxs": {"slice": [1, 3, None]}, "shape": (5,),
               "child": {"op": "Coupling", "dim": 2, "untransformed_dim": 1, "cond_dim": 2, "transformer": {"op": "Affine", "shape": ()}, "nn_width": 4, "nn_depth": 1}})
     C.append({"op": "Partial", "idxs": {"ints": [0, 3]}, "shape": (5,), "child": {"op": "Exp", "shape": (2,)}})
